@@ -320,6 +320,8 @@ class Pair(ConfigValue[tuple[K, V]]):
         value: tuple[K, V],
         display: bool = False,
     ) -> str | DeprecatedValue:
+        if value is None:
+            return ""
         serialized_first_value = self._subtypes[0].serialize(value[0], display=display)
         serialized_second_value = self._subtypes[1].serialize(value[1], display=display)
 
@@ -408,7 +410,7 @@ class LogColor(ConfigValue[log.LogColorName]):
         return raw_value
 
     def serialize(self, value: log.LogColorName, display: bool = False) -> str:
-        if value.lower() in log.COLORS:
+        if value is not None and value.lower() in log.COLORS:
             return encode(value.lower())
         return ""
 
